@@ -193,7 +193,7 @@ def devX (pat flags subj : List Nat) (steps : List Step) : List String :=
     (if anyMatch ∧ ic ∧ (chars.any foldSpecial ∨ reFoldSpecial r) then ["icase_fold"] else []) ++
     (if anyMatch ∧ Re.any (fun | .quant b q _ => b.ngroups > 0 ∧ q.max != some 1 ∧ q.max != some 0 | _ => false) r then ["capture_reset"] else []) ++
     (if anyMatch ∧ Re.any (fun | .quant b _ _ => nullable b | _ => false) r then ["nullable_loop"] else []) ++
-    (if anyMatch ∧ chars.any (· ≥ 0x10000) then ["astral_subject"] else []) ++
+    (if anyMatch ∧ (chars.any (· ≥ 0x10000) ∨ pat.any (· ≥ 0x10000)) then ["astral_subject"] else []) ++
     (if g ∧ execLike ∧ Re.any (fun | .bol | .wordb | .nwordb => true | _ => false) r then ["exec_substring"] else []) ++
     (if g ∧ has (· == .mtch) then ["match_global_lastindex"] else []) ++
     (if nl ∧ allLike then ["empty_adjacent"] else [])
